@@ -91,3 +91,128 @@ Proof.
 Qed.
 Lemma num_decode_old_refuted : num_decode_old [] = Panic /\ num_decode_old [NUMBER_FLOAT; 0] = Panic.
 Proof. split; reflexivity. Qed.
+
+(* ---- every in-range number survives the compact codec exactly ---- *)
+Lemma be_bytes_length k : forall n, length (be_bytes k n) = k.
+Proof. induction k as [|k IH]; intros n; cbn [be_bytes]; [reflexivity|]. rewrite app_length, IH. cbn. lia. Qed.
+
+Lemma rd_be_app a b acc : rd_be (a ++ b) acc = rd_be b (rd_be a acc).
+Proof. revert acc. induction a as [|x a IH]; intros acc; cbn [app rd_be]; [reflexivity|]. apply IH. Qed.
+
+Lemma rd_be_be_bytes k : forall n acc, rd_be (be_bytes k n) acc = acc * 256 ^ (N.of_nat k) + n mod 256 ^ (N.of_nat k).
+Proof.
+  induction k as [|k IH]; intros n acc.
+  - cbn [be_bytes rd_be]. change (N.of_nat 0) with 0. rewrite N.pow_0_r, N.mod_1_r. lia.
+  - cbn [be_bytes]. rewrite rd_be_app, IH. cbn [rd_be].
+    rewrite Nat2N.inj_succ, N.pow_succ_r'.
+    set (p := 256 ^ N.of_nat k). assert (Hp : p <> 0) by (unfold p; apply N.pow_nonzero; lia).
+    rewrite N.mod_mul_r by lia. ring.
+Qed.
+
+Lemma rd_be_roundtrip k n : n < 256 ^ (N.of_nat k) -> rd_be (be_bytes k n) 0 = n.
+Proof. intros H. rewrite rd_be_be_bytes. rewrite N.mod_small by exact H. lia. Qed.
+
+Lemma width_ok_cases k : In k [1; 2; 4; 8]%nat -> width_ok k = true.
+Proof. cbn. intros [<-|[<-|[<-|[<-|[]]]]]; reflexivity. Qed.
+
+Lemma sext_twos k z : (0 < k)%nat ->
+  (- 2 ^ (8 * Z.of_nat k - 1) <= z < 2 ^ (8 * Z.of_nat k - 1))%Z -> sext k (twos k z) = z.
+Proof.
+  intros Hk Hz. unfold sext, twos. set (m := (2 ^ (8 * Z.of_nat k))%Z).
+  assert (Hm : (m = 2 * 2 ^ (8 * Z.of_nat k - 1))%Z).
+  { unfold m. replace (8 * Z.of_nat k)%Z with (1 + (8 * Z.of_nat k - 1))%Z at 1 by lia.
+    rewrite Z.pow_add_r by lia. reflexivity. }
+  assert (Hpos : (0 < 2 ^ (8 * Z.of_nat k - 1))%Z) by (apply Z.pow_pos_nonneg; lia).
+  rewrite Z2N.id by (apply Z.mod_pos_bound; lia).
+  assert (Hhalf : (m / 2 = 2 ^ (8 * Z.of_nat k - 1))%Z).
+  { rewrite Hm. rewrite (Z.mul_comm 2). apply Z.div_mul. lia. }
+  rewrite Hhalf.
+  destruct (Z.ltb_spec (z mod m) (2 ^ (8 * Z.of_nat k - 1))) as [Hlt|Hge].
+  - destruct (Z.lt_ge_cases z 0) as [Hn|Hn].
+    + exfalso. rewrite <- (Z.mod_unique z m (-1) (z + m)) in Hlt; lia.
+    + rewrite Z.mod_small in *; lia.
+  - destruct (Z.lt_ge_cases z 0) as [Hn|Hn].
+    + rewrite <- (Z.mod_unique z m (-1) (z + m)); lia.
+    + exfalso. rewrite Z.mod_small in Hge; lia.
+Qed.
+
+Lemma int_width_range z : let k := int_width z in
+  In k [1; 2; 4; 8]%nat /\
+  ((- two63 <=? z) && (z <? two63) = true -> - 2 ^ (8 * Z.of_nat k - 1) <= z < 2 ^ (8 * Z.of_nat k - 1))%Z.
+Proof.
+  unfold int_width, two63.
+  repeat match goal with |- context [if ?c then _ else _] => destruct c eqn:? end; cbn [In]; split; auto 10; intros H.
+  all: repeat match goal with H : (_ && _)%bool = true |- _ => apply andb_true_iff in H; destruct H end.
+  all: repeat match goal with H : (_ <=? _)%Z = true |- _ => apply Z.leb_le in H | H : (_ <? _)%Z = true |- _ => apply Z.ltb_lt in H end.
+  all: cbn; lia.
+Qed.
+Lemma uint_width_range n : let k := uint_width n in
+  In k [1; 2; 4; 8]%nat /\ (n <? two64 = true -> n < 256 ^ N.of_nat k).
+Proof.
+  unfold uint_width, two64.
+  repeat match goal with |- context [if ?c then _ else _] => destruct c eqn:? end; cbn [In]; split; auto 10; intros H.
+  all: repeat match goal with H : (_ <=? _) = true |- _ => apply N.leb_le in H | H : (_ <? _) = true |- _ => apply N.ltb_lt in H end.
+  all: cbn; lia.
+Qed.
+
+Theorem num_roundtrip n : num_in_range n = true -> num_decode (compact_encode n) = Ok (normalise_num n).
+Proof.
+  destruct n as [z|u|b]; cbn [num_in_range compact_encode normalise_num]; intros Hr.
+  - destruct (z =? 0)%Z eqn:Ez; [reflexivity|].
+    destruct (int_width_range z) as [Hin Hrange]. specialize (Hrange Hr).
+    cbn [num_decode]. rewrite be_bytes_length.
+    change (NUMBER_INT =? NUMBER_ZERO) with false. change (NUMBER_INT =? NUMBER_NAN) with false.
+    change (NUMBER_INT =? NUMBER_INF) with false. change (NUMBER_INT =? NUMBER_NEG_INF) with false.
+    change (NUMBER_INT =? NUMBER_INT) with true. cbv iota.
+    rewrite (width_ok_cases _ Hin).
+    assert (Hk : (0 < int_width z)%nat) by (cbn [In] in Hin; destruct Hin as [<-|[<-|[<-|[<-|[]]]]]; lia).
+    rewrite rd_be_roundtrip.
+    + rewrite sext_twos by assumption. reflexivity.
+    + unfold twos. set (k := int_width z) in *.
+      assert (P : (0 <= z mod 2 ^ (8 * Z.of_nat k) < 2 ^ (8 * Z.of_nat k))%Z) by (apply Z.mod_pos_bound; apply Z.pow_pos_nonneg; lia).
+      replace (256 ^ N.of_nat k) with (Z.to_N (2 ^ (8 * Z.of_nat k))).
+      * apply Z2N.inj_lt; lia.
+      * change 256 with (2 ^ 8). rewrite <- N.pow_mul_r. rewrite Z2N.inj_pow by lia. f_equal. lia.
+  - destruct (u =? 0) eqn:Eu; [apply N.eqb_eq in Eu; subst u; reflexivity|].
+    destruct (uint_width_range u) as [Hin Hrange]. specialize (Hrange Hr).
+    cbn [num_decode]. rewrite be_bytes_length.
+    change (NUMBER_UINT =? NUMBER_ZERO) with false. change (NUMBER_UINT =? NUMBER_NAN) with false.
+    change (NUMBER_UINT =? NUMBER_INF) with false. change (NUMBER_UINT =? NUMBER_NEG_INF) with false.
+    change (NUMBER_UINT =? NUMBER_INT) with false. change (NUMBER_UINT =? NUMBER_UINT) with true. cbv iota.
+    rewrite (width_ok_cases _ Hin). rewrite rd_be_roundtrip by exact Hrange. reflexivity.
+  - destruct (f_is_nan b) eqn:En; [reflexivity|].
+    destruct (f_is_inf b) eqn:Ei.
+    + destruct (f_sign b) eqn:Es; cbn.
+      * (* -inf: the pattern is exactly F_NEG_INF *)
+        unfold f_is_inf, f_is_nan, f_sign, f_exp, f_man, two52 in *. apply andb_true_iff in Ei. destruct Ei as [E1 E2].
+        apply N.eqb_eq in E1, E2. apply N.leb_le in Es. apply N.ltb_lt in Hr. unfold two64 in Hr.
+        f_equal. f_equal. unfold F_NEG_INF.
+        pose proof (N.div_mod b 4503599627370496). pose proof (N.div_mod (b / 4503599627370496) 2048).
+        assert (b / 4503599627370496 < 4096) by (apply N.div_lt_upper_bound; lia).
+        assert (b / 4503599627370496 / 2048 < 2) by (apply N.div_lt_upper_bound; lia).
+        assert (b / 4503599627370496 / 2048 = 1 \/ b / 4503599627370496 / 2048 = 0) by lia. lia.
+      * unfold f_is_inf, f_is_nan, f_sign, f_exp, f_man, two52 in *. apply andb_true_iff in Ei. destruct Ei as [E1 E2].
+        apply N.eqb_eq in E1, E2. apply N.leb_gt in Es.
+        f_equal. f_equal. unfold F_INF.
+        pose proof (N.div_mod b 4503599627370496). pose proof (N.div_mod (b / 4503599627370496) 2048).
+        assert (b / 4503599627370496 < 2048) by (apply N.div_lt_upper_bound; lia).
+        assert (b / 4503599627370496 / 2048 = 0) by (apply N.div_small; lia). lia.
+    + cbn [num_decode]. rewrite be_bytes_length.
+      change (NUMBER_FLOAT =? NUMBER_ZERO) with false. change (NUMBER_FLOAT =? NUMBER_NAN) with false.
+      change (NUMBER_FLOAT =? NUMBER_INF) with false. change (NUMBER_FLOAT =? NUMBER_NEG_INF) with false.
+      change (NUMBER_FLOAT =? NUMBER_INT) with false. change (NUMBER_FLOAT =? NUMBER_UINT) with false.
+      change (NUMBER_FLOAT =? NUMBER_FLOAT) with true. cbv iota.
+      rewrite rd_be_roundtrip; [reflexivity|]. apply N.ltb_lt in Hr. exact Hr.
+Qed.
+
+(* shortest form: the payload length is the minimal width able to hold the number *)
+Lemma compact_encode_shortest_uint u : u <> 0 -> u < two64 ->
+  length (compact_encode (NUInt u)) = S (uint_width u) /\
+  (forall k, In k [1; 2; 4; 8]%nat -> u < 256 ^ N.of_nat k -> (uint_width u <= k)%nat).
+Proof.
+  intros Hu Hr. cbn [compact_encode]. apply N.eqb_neq in Hu. rewrite Hu. cbn [length]. rewrite be_bytes_length. split; [reflexivity|].
+  intros k Hk Hlt. unfold uint_width.
+  repeat match goal with |- context [if ?c then _ else _] => destruct c eqn:? end;
+    repeat match goal with H : (_ <=? _) = false |- _ => apply N.leb_gt in H end;
+    cbn [In] in Hk; destruct Hk as [<-|[<-|[<-|[<-|[]]]]]; cbn in Hlt; lia.
+Qed.
